@@ -163,6 +163,14 @@ def check_props(pid):
         if m:
             res["broken"] = names
             res["log"] += f"forbidden vernacular {m.group(0)!r} in {f}\n"
+    if os.environ.get("VERIF_TIER") == "thorough" or "--tier thorough" in " ".join(sys.argv) or ("thorough" in sys.argv):
+        # independent re-check of the compiled closure; lists the axioms of every loaded library
+        rc, out = sh(f"timeout 1500 coqchk -silent -o -Q theories ApolloVerif ApolloVerif.Props.{pid}", cwd=COQ, timeout=1600)
+        m = re.search(r"\* Axioms:\s*(.*?)\n\s*\n", out, re.S)
+        res["coqchk"] = {"rc": rc, "axioms": (m.group(1).strip() if m else "?")}
+        if rc != 0:
+            res["broken"] = names
+            res["log"] += "coqchk failed:\n" + out[-1500:]
     res["discharged"] = len([n for n in names if n not in set(res["broken"])])
     res["ok"] = not res["broken"] and res["obligations"] > 0
     return res
@@ -364,6 +372,8 @@ class Ctx:
         cov["discharged"] = props["discharged"]
         cov["theorems"] = props["theorems"]
         cov["axioms_per_theorem"] = props["axioms"]
+        if "coqchk" in props:
+            cov["coqchk"] = props["coqchk"]
         cov["checker_cmd"] = (f"cd /verif/coq && ./build.sh theories/Props/{self.pid}.vo && "
                               f"coqc -Q theories ApolloVerif theories/Props/{self.pid}.v  (full .vo build, Coq 8.16.1)")
         cov["trusted_base"] = [
